@@ -81,6 +81,24 @@ NEEDS = {
     'C18-dB': "noise_cov_channel given and noise != 1: noise folded into the Cholesky factor and reset to 1.0, descriptor records 1.0",
     'C19-dA': "threshold >= 1, radius > 1, mask touching a face of the volume: np.roll-based neighbour prefilter wraps around",
     'C19-dB': "n_jobs > 1 and a centre count that is not a multiple of the worker count: zip() over interleaved shares truncates",
+    'C04-eA': "number of pattern groups not divisible by k_pattern + a fitted model: left-over test condition never removed from the training fold",
+    'C04-eB': "eval_bootstrap_pattern with two models sharing a name: predictions cached by model name",
+    'C05-eA': "sets_leave_one_out_pattern with string labels where one is a substring of another ('c1', 'c10'): bare label + membership mask (two edits)",
+    'C05-eB': "grouped rdm descriptor whose members are not adjacent (interleaved sessions, bootstrap copies apart): subsample takes first index + count",
+    'C09-eA': "repeated rdm descriptor whose equal values are not contiguous: itertools.groupby lists a group once per run",
+    'C09-eB': "float pattern labels close to each other relative to their magnitude (onsets as unix timestamps): np.isclose matching reached through subsample_pattern (two edits)",
+    'C10-eA': "subset_pattern with a value list of >= 3 conditions not in pattern order: descriptors follow the list, dissimilarities the mask",
+    'C10-eB': "concat/from_partials of objects whose differing object-level descriptor has a falsy value (0, '', False): truthiness test",
+    'C11-eA': "merge of parts where a later part has a label that does not fit the first part's dtype ('c10' after 'c1', 0.5 after ints): preallocated descriptor",
+    'C11-eB': "subset_time on repeated time values / subset_obs with a value list repeating a value: num_index gathers hits per requested value (two edits)",
+    'C12-eA': "ndarray pattern descriptors; subsample then reorder/sort_by: shallow dict copy + in-place array permutation (two edits)",
+    'C12-eB': "concat(list) where a later element has another pattern order: reordered copies written into the caller's list",
+    'C16-eA': "handle whose .name is an integer fd, already written, overwrite=True: remove_file no longer truncates it",
+    'C16-eB': "Result with dof == 0 (eval_fixed on one data RDM): falsy default turns dof into 1 on load",
+    'C18-eA': "signal != 1 and a second make_dataset call with the same ModelFixed/ModelSelect object: signal folded into the model's stored RDM in place",
+    'C18-eB': "use_same_signal=True, n_sim >= 2, noise > 0: noise added in place to one shared buffer (two edits)",
+    'C19-eA': "n_jobs > 1, >= 2*n_workers centres, searchlight RDMs object subset or re-ordered before evaluation: blocks selected by 'index' values",
+    'C19-eB': "Fortran-ordered or transposed mask: linear indices computed from memory strides",
 }
 
 
@@ -92,7 +110,7 @@ def main(ids):
         d = os.path.join(root, sid)
         prop = sid.split('-')[0]
         patch = os.path.join(d, 'patch.diff')
-        runs = {'C04': 900, 'C16': 1500, 'C12': 2500, 'C19': 1200}.get(prop, 2000)
+        runs = {'C04': 1400, 'C16': 1800, 'C12': 5000, 'C19': 2500, 'C05': 4000, 'C18': 4000}.get(prop, 8000)
         r = subprocess.run([os.path.join(VERIF, 'tools', 'mutrun.sh'), patch, prop, '--runs', str(runs)],
                            capture_output=True, text=True, timeout=3600)
         sigs = re.findall(r'signature=(\S+)', r.stdout)
